@@ -6,5 +6,5 @@ CONSTANTS
  Eager = FALSE
 INIT GInit
 NEXT GNext
-INVARIANTS Emit
+INVARIANTS Emit TypeOK LocksExact MarkIsReach FallbackPresent
 CHECK_DEADLOCK FALSE
